@@ -5,6 +5,13 @@ def part(name, pkg, run, files, **kw):
     d.update(kw)
     return d
 
+# operator-level fixture: process seam (executor), cron firing helper, queue wrapper call sites
+FX_EXTRA = {"pkg/executor": ["zz_verif_seam.go"], "pkg/schedule_manager": ["zz_verif_seam.go"]}
+FX_INSTR = {"files": [
+    {"path": "pkg/executor/executor.go", "calls": {"e.cmd.Run": "@zzCmdRun", "e.cmd.Output": "@zzCmdOutput"}},
+    {"path": "pkg/shell-operator/operator.go", "calls": {"tqs.NewNamedQueue": "@zzNewNamedQueue", "op.TaskQueues.NewNamedQueue": "@zzNewNamedQueue"}},
+]}
+
 CHECKS = {
     "C05": {
         "level": "model_checking",
@@ -41,6 +48,19 @@ CHECKS = {
             part("c15a", "pkg/webhook/conversion", "TestVerifC15a", ["zz_verif_c15_test.go"], shards={"quick": 8, "thorough": 16},
                  instrument={"files": [{"path": "pkg/webhook/conversion/chain.go",
                                         "mapranges": ["c.PathsCache", "c.BaseFromToIndex", "c.BaseFromToIndex[k]", "c.BaseFromToIndex[fromVer]", "newPaths"]}]}),
+        ],
+    },
+    "C11": {
+        "level": "model_checking",
+        "engine": "E2",
+        "technique": "exhaustive enumeration of add/remove histories on the real schedule manager and of schedule-binding topologies through the real tick-to-task path",
+        "level_text": "Part a: every sequence of Add/Remove of (crontab,id) pairs (2 crontabs x 2 ids, repeats and unknown pairs) up to depth 5 (quick) / 7 (thorough) on the real scheduleManager with the real cron library; after every step the registered set, the number of cron jobs and the messages produced by one injected firing of every job are compared with a reference-count model. Part b: every assignment of up to 3 schedule bindings to 2 hooks (shared/distinct crontabs, queues, groups, allowFailure, includeSnapshotsFrom, named/unnamed) with enable/disable sequences; one tick of each crontab through the real schedule handler must yield exactly one task per enabled binding with that crontab carrying its attributes.",
+        "level_note": "Trusted: cron parsing/Entries of robfig/cron (never started; a firing is Job.Run()), reference models in the harnesses. Hook configurations are loaded through the real HookManager.Init with the hook process replaced by an in-process stand-in that answers --config.",
+        "rule": "all op sequences / all binding topologies in the stated bounds; non-trivial = contains a Remove / more than one binding; distinct = distinct live set / task list",
+        "parts": [
+            part("c11a", "pkg/schedule_manager", "TestVerifC11a", ["zz_verif_c11_test.go"], shards={"quick": 4, "thorough": 16}),
+            part("c11b", "pkg/shell-operator", "TestVerifC11b", ["zz_verif_c11_test.go", "zz_verif_fixture_test.go"], shards={"quick": 8, "thorough": 16},
+                 extra=FX_EXTRA, instrument=FX_INSTR),
         ],
     },
 }
